@@ -118,6 +118,8 @@ def validIter (st : St) (t : Nat) : Option (ItSlot × Slot) :=
 def step (st : St) (ws : List String) : St × String :=
   match ws with
   | ["reset"] => (St.init, "ok")
+  -- handle reuse in the harness must not change any answer
+  | ["reuse", _] => (st, "ok")
   | ["init", k] =>
     match slotIdx k with
     | none => (st, "bad-op")
